@@ -18,7 +18,7 @@ const maxInlineDepth = 10
 
 func isSpecHelper(f *types.Func) bool {
 	switch f.Name() {
-	case "old", "forallInt", "existsInt", "forallReal", "existsReal", "implies", "assert", "assume", "iff", "fresh", "memEq", "lemmaUse", "wfd", "bnd", "sameSlice", "sameSlice16", "iterStart", "allocd", "ghostRank", "rangeIndex", "inPlace", "same", "sharesMem", "wroteSeq", "wroteLast", "callCount", "callArgF", "callArgI", "callArgB":
+	case "old", "forallInt", "existsInt", "forallReal", "existsReal", "implies", "assert", "assume", "iff", "fresh", "memEq", "lemmaUse", "wfd", "bnd", "sameSlice", "sameSlice16", "iterStart", "allocd", "ghostRank", "rangeIndex", "inPlace", "same", "sharesMem", "wroteSeq", "wroteLast", "callCount", "callArgF", "callArgI", "callArgB", "rangeSlice":
 		return f.Pkg() != nil && strings.Contains(f.Pkg().Path(), "tdewolff/canvas")
 	}
 	return false
@@ -1495,6 +1495,19 @@ func (x *Exec) callSpecHelper(s *State, fn *types.Func, call *ast.CallExpr) []*T
 			}
 		}
 		return []*Term{x.freshVar("rangeidx", SInt)}
+	case "rangeSlice":
+		// the value of the operand of range loop N (evaluated once, before the loop)
+		ordT := x.eval(s, call.Args[0])
+		if ordT.rat != nil {
+			ord := int(ordT.rat.Num().Int64())
+			for i := len(x.frames) - 1; i >= 0; i-- {
+				if v, ok := x.frames[i].rangeColl[ord]; ok {
+					return []*Term{v}
+				}
+			}
+		}
+		x.note("rangeSlice: no such range loop here")
+		return []*Term{x.havocValue(s, "rangeSlice", x.typeOf(call))}
 	case "ghostRank":
 		// an arbitrary but fixed integer attached to a reference (well-founded orders on pointer structures)
 		v := x.eval(s, call.Args[0])
